@@ -37,6 +37,19 @@ def _cleanup():
         shutil.rmtree(_scratch, ignore_errors=True)
 
 
+def repo_tree_id():
+    """Which tree the run looked at: HEAD of the repository under test and whether tracked files differ from it
+    (evidence of a run against a deliberately modified tree says so)."""
+    import subprocess
+    try:
+        head = subprocess.run(["git", "-C", REPO, "rev-parse", "--short", "HEAD"], capture_output=True, text=True, timeout=20).stdout.strip()
+        dirty = subprocess.run(["git", "-C", REPO, "status", "--porcelain", "--untracked-files=no"], capture_output=True, text=True,
+                               timeout=20).stdout.strip().splitlines()
+        return {"root": REPO, "head": head, "tracked_files_modified": len(dirty)}
+    except Exception as e:  # noqa
+        return {"root": REPO, "error": repr(e)[:100]}
+
+
 def subdir(name):
     p = os.path.join(scratch(), name)
     os.makedirs(p, exist_ok=True)
